@@ -11,7 +11,7 @@ TABLE = [
     ("C08", r"solout", r"exact_zero|event_state|support", ["event_at_step_start_state", "event_function_scale"]),
     ("C08", r"solout", r"events\.|process\.|detect\.", ["events_multi_in_step"]),
     ("C05", r"solout", r"teval\.|support", ["teval_backward_endpoints", "tiny_time_scale", "teval_terminal"]),
-    ("C03", r"dispatch_A", r"zero_length|skipped", ["tiny_time_scale", "zero_length_dense"]),
+    ("C03", r"dispatch_A", r".*", ["tiny_time_scale", "zero_length_dense", "first_step_rejected_then_success", "first_step_sign_and_overshoot"]),
     ("C06", r"dispatch", r".*", ["zero_length_dense", "sol_at_every_sample"]),
     ("C06", r"cont_R", r".*", ["tiny_time_scale", "sol_at_every_sample"]),
     ("C06", r"solout", r".*", ["dense_up_to_terminal_event", "sol_at_every_sample", "event_interpolant_right_end"]),
@@ -35,6 +35,7 @@ TABLE = [
     ("C06", r".*", r"dense\.|interp\.", ["event_interpolant_right_end"]),
     ("C18", r".*", r"nfev|naccpt|nstep|njev", ["counters", "modified_solution_counts"]),
     ("C19", r".*", r"fsal|proto\.|naccpt", ["counters", "modified_solution_doubling"]),
+    ("C19", r"radau|bdf", r"proto\.|span\.|dense\.", ["dense_end_points", "radau_interpolant_interval"]),
     ("C19", r"radau|bdf|rk|dp", r".*", ["modified_solution_doubling", "initial_modified_solution"]),
     ("C02", r".*", r"fsal", ["counters"]),
     ("C04", r".*", r"term\.|safety|support|nan", ["termination", "negative_time_blowup"]),
@@ -57,6 +58,7 @@ TABLE = [
     ("C20", r"cont_R", r".*", ["extrapolate_equals_sol"]),
     ("C20", r"sparsity_A|sparsefd_A", r".*", ["sparsity_groups"]),
     ("C02", r"radau", r".*", ["radau_pade"]),
+    ("C02", r"rk23|dopri5|dop853|dp5|dp8", r".*", ["step_count_law"]),
 ]
 _BUILT = {}
 
